@@ -37,8 +37,10 @@ def conc(p):
         return p['b']
     if k == 'special':      # what json.loads makes of the tokens NaN / Infinity / -Infinity / 1e999
         return json.loads(SPECIAL_TOKENS[p['s']])
-    if k == 'null':
+    if k in ('null', 'jnull'):
         return None
+    if k == 'fzero':
+        return 0.0
     if k == 'list':
         return [conc(x) for x in p['xs']]
     if k == 'obj':
@@ -55,6 +57,8 @@ def wire_text(p):
     k = p['k']
     if k == 'special':
         return SPECIAL_TOKENS[p['s']]
+    if k == 'fzero':
+        return '0.0'
     if k == 'list':
         return '[' + ', '.join(wire_text(x) for x in p['xs']) + ']'
     if k == 'obj':
@@ -1096,6 +1100,11 @@ def _limpar(wire, dt, init, level='X'):
             'islimit': True, 'level': level}
 
 
+# what may be offered to a command without argument besides nothing: null, falsy and truthy JSON values
+NO_ARG = [{'k': 'jnull'}, num(0), {'k': 'fzero'}, {'k': 'bool', 'b': False}, abs_str(''), {'k': 'list', 'xs': []},
+          {'k': 'obj', 'kv': []}, num(1), sval('ab'), {'k': 'list', 'xs': [num(1)]}, {'k': 'obj', 'kv': [{'key': 'a', 'val': num(1)}]}]
+
+
 def rand_request(rnd, shape, cache):
     r = rnd.random()
     mods = list(shape)
@@ -1127,5 +1136,5 @@ def rand_request(rnd, shape, cache):
     else:
         act = 'change' if q < 0.05 else 'read' if q < 0.1 else 'do'
         payload = NULL if act == 'read' else num(1) if act == 'change' else \
-            (NULL if rnd.random() < 0.8 else num(1)) if acc['arg']['t'] == 'none' else rand_payload(rnd, acc['arg'])
+            (NULL if rnd.random() < 0.55 else rnd.choice(NO_ARG)) if acc['arg']['t'] == 'none' else rand_payload(rnd, acc['arg'])
     return {'act': act, 'mod': m, 'name': name, 'payload': payload}
